@@ -53,7 +53,7 @@ def run_case(case, ctx):
     built = planted.build(rng, pat, case["cell"], atol, n_copies=len(case["crossings"]), crossings=case["crossings"], poses=case["poses"],
                           decoys=case["decoys"], n_bystanders=int(rng.integers(0, 6)), n_distractors=int(rng.integers(0, 4)))
     atoms = built["atoms"]
-    patoms = patterns.to_atoms(pat)
+    patoms = patterns.to_atoms(pat, unused_type=(case["s"] % 5 == 2))
     nmatches = 0
     hintsets = patterns.valid_hint_sets(pat, rng, k=3)
     for hi, hints in enumerate(hintsets):
